@@ -16,6 +16,7 @@ CONFIG = {
         "atomicity of the reserve step = mutual exclusion of std::sync::Mutex; the compute step touches only the worker's own clone (checked by the controlled runs: every schedule of the lock/unlock points gives the model's answers)",
         "hook H3 (repo_patches/H3-cursor-sched.patch) only adds scheduling points; without it the check runs the free-running stress mode only and says so in driver_stats (blocks_hook_H3_absent_stress_only)",
         "controlled runs: all schedules of the cursor-lock acquisition/release points for 2 and 3 requests (same key, mixed keys; 2..4 workers), random schedules for 4..6 requests, amounts from {1,2,3,5,c-1,c,c+1}, generated models with 5..200 models under A and one with 14 free features; stress: 8 x enum 2000 on 14 free features with 2..4 free-running threads",
+        "request literal lists are duplicate-free except in the one 'dupset' case, which records the known finding K10 (cursor keyed by the literal list, not the set: [1] and [1,1] page independently)",
         "the oracle compares with the implementation's own sequential full cycle from cursor 0 (ref) and needs C06 (that cycle has count(A) distinct configurations; count(A) from the truth table of the source formula)",
     ],
     "rule": "one case = one (model, request list) with all its runs (every enumerated or random schedule, or one free-running "
